@@ -64,7 +64,7 @@ def ecBufferTail (ed : Ed) (cmd arg : Bytes) : R Int :=
       | none => (acc.1 ++ [none], acc.2)) ([], 0)
     some (0, { ed with bufs := bufs, bufsCnt := n })
   else
-    let id := atoi arg
+    let id := exAtoi arg
     let curId := (ed.cur.map (·.id)).getD 0
     let idOf (i : Nat) : Option Int := (ed.bufs.getD i none).map (·.id)
     let idx : Int :=
@@ -777,11 +777,11 @@ theorem number_unique (ed : Ed) (hok : IdsOk ed) (i j : Nat) (bi bj : Buf)
     slot —, and the buffer that is current afterwards has number `N` and that buffer's path. -/
 theorem b_number_unique (f : Nat) (ed ed1 : Ed) (loc cmd arg : Bytes) (txt : Option Bytes) (i : Nat) (b : Buf)
     (hok : IdsOk ed) (hd : isDigitC (arg.headD 0) = true)
-    (hb : ed.bufs.getD i none = some b) (hid : b.id = atoi arg)
+    (hb : ed.bufs.getD i none = some b) (hid : b.id = exAtoi arg)
     (hguard : bufferGuard ed cmd = some (false, ed1)) :
     runCmd (f + 1) ed "ec_buffer" loc cmd arg txt = some (0, ed1.bufsSwitch i) ∧
-    (∀ j b', ed.bufs.getD j none = some b' → b'.id = atoi arg → j = i ∧ b' = b) ∧
-    (∃ b', (ed1.bufsSwitch i).cur = some b' ∧ b'.id = atoi arg ∧ b'.path = b.path) := by
+    (∀ j b', ed.bufs.getD j none = some b' → b'.id = exAtoi arg → j = i ∧ b' = b) ∧
+    (∃ b', (ed1.bufsSwitch i).cur = some b' ∧ b'.id = exAtoi arg ∧ b'.path = b.path) := by
   refine ⟨?_, ?_, ?_⟩
   · refine b_number f ed ed1 loc cmd arg txt i b hd hb hid ?_ hguard
     intro j b' hj hb' hid'
